@@ -12,7 +12,9 @@ CONF = dict(
           'receive buffer, and for NTS: trailing bytes behind the authenticator, bit flips in header / unique id / authenticator header / lengths / nonce / ciphertext, sealed '
           'under the client-to-server or a random key, wrong / previous / one-bit-off unique identifier, missing authenticator, missing identifier, bare 48-byte response, '
           'extension length 0 and 3, 16-byte identifier, nonce lengths 0/12/15/17/32, the genuine response of the previous exchange, authentic packet with malformed '
-          'plaintext; silent peer (deadline). Observed: the error of every exchange (call logger), the four timestamps combined (recording filter), the offset and error '
+          'plaintext; silent peer (deadline); the genuine response from the server address but another port, and from another address with the server\'s port number. The same '
+          'over SCION (client.MeasureClockOffsetSCION, one client, empty path): NTP payload recipes wrapped into SCION/UDP packets, plus wrong source / destination ISD-AS, '
+          'wrong source / destination host, bytes that are not SCION, cut-off packets. Observed: the error of every exchange (call logger), the four timestamps combined (recording filter), the offset and error '
           'returned, the timestamp fields of every request on the wire. A history is non-trivial when at least one delivered datagram differs from a genuine response; '
           'distinct = distinct (kind, input)'),
     assumptions=['symbolic AEAD for the NTS clause (C05_nts_authentic: a ciphertext opens only if the key holder sealed it with exactly that associated data)',
@@ -21,7 +23,8 @@ CONF = dict(
                  'payloads are byte strings (0..255) for the oracle theorem'],
     trusted=['modelled, not verified: net.UDPConn.ReadMsgUDPAddrPort (MSG_TRUNC when the datagram exceeds the buffer), miscreant AES-SIV-CMAC (answers recomputed by the '
              'harness and matched against the model\'s query), crypto/tls exporter, the recording slog handler and measurements.Filter used to observe the client',
-             'SCION client: same loop proved in the model (front_check), not driven by the harness in this version'],
+             'SCION client: driven through MeasureClockOffsetSCION with one client, an empty path and plain NTP (no NTS, no packet authenticator: those branches of the '
+             'model are proved but not exercised); the gopacket/scionproto parse of every crafted datagram is recomputed by the harness with the client\'s parser configuration'],
     technique=('Coq proof by induction over the list of delivered events of a Gallina model of the receive loop (retry counter, source check, ntp.DecodePacket, nts.DecodePacket / '
                'ProcessResponse with a Section-variable AEAD, origin match, ValidateResponseMetadata / Timestamps), of the three exchanges of a call and of the interleaved-mode '
                'state over call histories: acceptance <-> the conjunction of the property\'s clauses; differential execution of the extracted model on what the real client did '
@@ -30,7 +33,8 @@ CONF = dict(
                 'the model is tied to client_ip.go / validation.go / nts.go by replaying generated histories on the real client over loopback sockets every run and comparing '
                 'per-exchange outcome, combined timestamps, offsets and request fields; the oracle is evaluated on the implementation\'s observations'),
     level_note=('Trusted: Coq kernel, hand-written model validated by the correspondence run, extraction, harness (scripted peer, independent NTS field walker, miscreant). '
-                'Crypto symbolic. The SCION client shares the modelled loop (its layer checks are in the model and theorems) but is not exercised by the harness. No axioms.'),
+                'Crypto symbolic. DEFECT D-C05a (C05_scion_allfail_refuted, case kind scion.allfail): MeasureClockOffsetSCION returns offset 0 with a nil error when every exchange of its '
+                'client failed; the kind scion.hist passes over exactly that return value, scion.allfail checks it strictly and fails on the current tree. No axioms.'),
     explanation=('oracle: an exchange that reports the four timestamps must have been delivered a datagram from the server address with >= 48 bytes, origin = the request\'s '
                  'transmit field (or receive field of an interleaved request), leap != 3, version 3|4, mode 4, stratum 1..15, with NTS the request\'s unique identifier and a '
                  'valid AEAD tag under the S2C key, whose transmit/receive fields are the reported t2/t1 with t1 <= t2; a returned offset is that of an accepted exchange'),
